@@ -335,7 +335,11 @@ fn nested(rep: &mut Report, rng: &mut Rng, case: u64) {
         SEEN.with(|s| s.borrow_mut().push(serde_json::to_string(p).unwrap()));
         async { "in" }
     };
-    let inner = Ohkami::new((mk(ia, &isec).get_token_by(|req| req.headers.get("X-Admin-Token")), "/q".GET(h)));
+    #[cfg(not(feature = "openapi"))]
+    let inner_fang = mk(ia, &isec).get_token_by(|req| req.headers.get("X-Admin-Token"));
+    #[cfg(feature = "openapi")]
+    let inner_fang = mk(ia, &isec).get_token_by(|req| req.headers.get("X-Admin-Token"), ohkami::openapi::SecurityScheme::Bearer("adminToken", None));
+    let inner = Ohkami::new((inner_fang, "/q".GET(h)));
     let router = hook::Router::new(Ohkami::new((mk(oa, &osec), "/p".GET(h), "/admin".By(inner))));
     let t = now();
     let hdr = |alg: usize| format!(r#"{{"typ":"JWT","alg":"{}"}}"#, ALGS[alg]);
